@@ -98,7 +98,11 @@ def search(res, tier, seed, deep=False):
                            ("sfcwind", 0, 20, dict(nonparametric_qm=True)), ("hurs", 0, 100, dict(nonparametric_qm=False))]
             # (threshold on the bound: bell-shaped data with calm days as exact zeros, several samples: whether the
             #  distribution fit matters there depends on the sample)
-            for var, lo, hi, over, bell in [v + (False,) for v in ISIMIP_VARS] + [v + (True,) for v in ISIMIP_VARS if v[3].get("lower_threshold") == 0.0] * 6:
+            # (and: observations without any value between the thresholds — a completely dry record, permanently saturated
+            #  humidity — while the model has some: step 6 then leaves the in-threshold values unadjusted, in place)
+            ALL_AT_BOUND = [("pr", 0, 5e-4, {}), ("hurs", 0, 100, dict(bias_correct_frequencies_of_values_beyond_thresholds=True)), ("prsnratio", 0, 1, {}), ("sfcwind", 0, 20, {})]
+            for var, lo, hi, over, bell in [v + (False,) for v in ISIMIP_VARS] + [v + (True,) for v in ISIMIP_VARS if v[3].get("lower_threshold") == 0.0] * 6 \
+                    + [v + ("all-at-bound",) for v in ALL_AT_BOUND] * 2:
                 d = ISIMIP.from_variable(var, **over)
                 big = bool(over) and r.random() < 0.5          # samples of a few thousand values now and then
                 n1, n2, n3 = (r.randint(1500, 2500), r.randint(1500, 2500), r.randint(1500, 2500)) if big else (r.randint(60, 150), r.randint(60, 150), r.randint(60, 150))
@@ -114,7 +118,10 @@ def search(res, tier, seed, deep=False):
                         x[k] = d.upper_bound - rs.rand(k.sum()) * (d.upper_bound - d.upper_threshold)
                     return x
                 oh, ch, cf = mk(n1, 0), mk(n2, 0.1), mk(n3, 0.15)
-                if bell:
+                if bell == "all-at-bound":
+                    oh = np.full(n1, float(d.upper_bound if var == "hurs" else d.lower_bound))
+                    ch, cf = mk(n2, 0.1), mk(n3, 0.15)
+                elif bell:
                     sc = hi / 20.0
                     oh, ch, cf = (np.maximum(rs.normal(mu * sc, sd * sc, m), 0.0) for m, mu, sd in ((n1, 3, 2.5), (n2, 5, 3), (n3, 5.5, 3)))
                 np.random.seed(rnd)
